@@ -51,67 +51,73 @@ theorem quad_elevation (p0 c p : Pt) (t : Rat) :
       cubicAt p0.2 c1.2 c2.2 p.2 t = quadAt p0.2 c.2 p.2 t :=
   ⟨_, _, rfl, rfl, elevation_identity _ _ _ _, elevation_identity _ _ _ _⟩
 
-/-! ## path interpreter = SVG segment semantics
+/-! ## path interpreter = SVG segment semantics -/
 
-  Full statement (FALSE on the current code, see `closepath_reopen_counterexample` and
-  `arc_multi_group_counterexample`):
+/-- FULL statement: for every command list of the SVG grammar (a moveto first, every command with at least
+    one argument group — any number of groups, absolute and relative, arcs included as opaque arc segments)
+    the code's interpreter, run on the commands as it sees them (command byte + flat number list), produces
+    exactly the operations of the specification — implicit repetition of argument groups, a moveto's extra
+    pairs as linetos, H/V, S/T reflection only after C/S resp. Q/T, quadratic elevation, closepath back to
+    the sub-path start (also for a sub-path continued without a new moveto), zero-radius arcs as lines,
+    arcs ending exactly at each group's end point — and ends with the same current point and sub-path start. -/
+theorem path_model_eq_spec (cmds : List Cmd) (hg : grammatical cmds = true) :
+    ∃ m, runSegs {} (cmds.map toRaw) = .ok (m, (Spec.run cmds).2) ∧
+      m.cur = (Spec.run cmds).1.cur ∧ m.start = (Spec.run cmds).1.start :=
+  path_full cmds hg
 
-    ∀ cmds : List Spec.Cmd, grammatical cmds →
-      runSegs {} (cmds.map toRaw) = .ok (m, (Spec.run cmds).2) ∧ m.cur = (Spec.run cmds).1.cur
+example : grammatical [.move false [(0, 0), (4, 0), (4, 4)], .close, .line false [(8, 8)], .close,
+    .quad true [((2, 2), (4, 0)), ((1, 1), (2, 0))], .smoothQuad false [(8, 0), (12, 0)],
+    .arc false [⟨10, 10, 0, false, true, (10, 10)⟩, ⟨20, 5, 0, false, false, (30, 10)⟩]] = true := by decide
 
-  Proved: the same for every list of one-group commands without arcs in which each closepath closes a
-  sub-path opened by a moveto (`closesOk`): absolute/relative, H/V, S/T reflection only after C/S resp. Q/T,
-  quadratic elevation, closepath returning to the sub-path start; operations, current point and sub-path
-  start agree after the whole list (and, by `step_sim`, after each segment).  Implicit repetition is proved
-  for moveto (`moveto_implicit_lineto`); for the other multi-group commands it is covered by the
-  correspondence run only. -/
-theorem path_model_eq_spec_partial (gs : List Seg)
-    (hArc : gs.all (fun g => !isArcSeg g) = true) (hClose : closesOk false gs = true) :
-    ∃ m, runSegs {} (gs.map segRaw) = .ok (m, (interp {} gs).2) ∧
-      m.cur = (interp {} gs).1.cur ∧ m.start = (interp {} gs).1.start :=
-  run_sim gs {} {} false ⟨rfl, rfl, rfl, by decide, by decide⟩ hArc hClose
+/-- state after each command: one command of the model and its expansion in the spec stay in the
+    simulation relation (current point, sub-path start, open flag, reflected control points) -/
+theorem path_command_simulation (m : St) (s : SSt) (o : Bool) (c : Cmd) (h : Sim m s o)
+    (ha : c.hasArgs = true) (hc : c = .close → o = true) :
+    ∃ m', addSeg m (toRaw c).1 (toRaw c).2 = .ok (m', (interp s (expand c)).2) ∧
+      Sim m' (interp s (expand c)).1 (o || isMove c) :=
+  cmd_sim m s o c h ha hc
 
-example : closesOk false [.move false (0, 0), .quad true (2, 2) (4, 0), .smoothQuad false (8, 0), .close,
-    .move true (1, 1), .cubic false (1, 2) (3, 4) (5, 6), .smooth true (1, 1) (2, 0), .h true 3, .close] = true := by decide
+/-- a moveto's extra pairs are linetos: what the spec (hence, by `path_model_eq_spec`, the code) draws for
+    `M p q1 q2 …` -/
+theorem moveto_implicit_lineto (p : Pt) (r : List Pt) :
+    (Spec.run [.move false (p :: r)]).2 = .moveTo p :: r.map .lineTo ∧
+    (Spec.run [.move false (p :: r)]).1.cur = lastD p r ∧ (Spec.run [.move false (p :: r)]).1.start = p := by
+  have hi := lines_interp false r (step {} (.move false p)).1
+  simp only [Spec.run, List.flatMap_cons, List.flatMap_nil, List.append_nil, expand, interp, hi]
+  cases r <;> simp [step, toAbs, absOrP, plain, lastD, lastD_cons_eq]
 
-/-- state after each segment: one step of the model and of the spec stay in the simulation relation -/
-theorem path_step_simulation (m : St) (s : SSt) (o : Bool) (g : Seg) (h : Sim m s o)
-    (ha : isArcSeg g = false) (hc : g = .close → o = true) :
-    ∃ m', addSeg m (segRaw g).1 (segRaw g).2 = .ok (m', (step s g).2) ∧ Sim m' (step s g).1 (openAfter o g) :=
-  step_sim m s o g h ha hc
-
-/-- a moveto's extra pairs are linetos: `M p q1 q2 …` draws what `M p L q1 L q2 …` draws, same end state -/
-theorem moveto_implicit_lineto (m : St) (p : Pt) (r : List Pt) :
-    ∃ m1 m2, addSeg m 'M' (flatP (p :: r)) = .ok (m1, .moveTo p :: r.map .lineTo) ∧
-      runSegs m (('M', [p.1, p.2]) :: r.map fun q => ('L', [q.1, q.2])) = .ok (m2, .moveTo p :: r.map .lineTo) ∧
-      m1.cur = m2.cur ∧ m1.start = m2.start ∧ m1.inPath = m2.inPath := by
-  obtain ⟨m', e, c, s, i⟩ := lines_run r { m with start := p, inPath := true, cur := p, lastKey := 'M' }
-  refine ⟨{ m with start := p, inPath := true, cur := lastD p r, lastKey := 'M' }, m', ?_, ?_, ?_, ?_, ?_⟩
-  · simp [addSeg, pairs_flatP]
-  · simp [runSegs, addSeg, pairs, lastD, e]
-  · simp [c]
-  · simp [s]
-  · simp [i]
-
-/-- negation witness (also replayed against the code, KF18-4): `M0 0 L4 0 L4 4 Z L8 8 Z l1 1`:
-    the second closepath is dropped and the current point stays at (8,8) -/
-theorem closepath_reopen_counterexample :
-    let gs : List Seg := [.move false (0, 0), .line false (4, 0), .line false (4, 4), .close,
-                          .line false (8, 8), .close, .line true (1, 1)]
-    (match runSegs {} (gs.map segRaw) with
-      | .ok (m, ops) => ops != (interp {} gs).2 && m.cur == (9, 9) && (interp {} gs).1.cur == (1, 1)
+/-- regression example (former defect KF18-4): `M0 0 L4 0 4 4 Z L8 8 Z l1 1` — the second closepath
+    closes again and the current point returns to (0,0), so the relative lineto ends at (1,1) -/
+theorem closepath_reopen_example :
+    let cmds : List Cmd := [.move false [(0, 0)], .line false [(4, 0), (4, 4)], .close,
+                            .line false [(8, 8)], .close, .line true [(1, 1)]]
+    (match runSegs {} (cmds.map toRaw) with
+      | .ok (m, ops) => ops == [.moveTo (0, 0), .lineTo (4, 0), .lineTo (4, 4), .close, .lineTo (8, 8), .close,
+                                .lineTo (1, 1)] && m.cur == (1, 1)
       | _ => false) = true := by
   decide +kernel
 
 /-! ## arcs
 
-  Full statement (FALSE on the current code): every argument group of an A/a command yields an arc that
-  ends at that group's end point.  That the emitted cubics lie on the ellipse involves atan2/sin/cos/sqrt in
-  floating point: judged numerically by the harness, not proved. -/
+  That the emitted cubics lie on the ellipse involves atan2/sin/cos/sqrt in floating point: judged
+  numerically by the harness (ellipse equation within 1e-3, swept angle), not proved. -/
 
-/-- one argument group, non-degenerate: the arc ends exactly at the requested point (the harness checks
-    that the last emitted cubic ends exactly there) and the current point moves to it -/
-theorem arc_endpoints_partial (m : St) (rx ry rot l s x y : Rat)
+/-- every argument group of an absolute A command yields the spec's segment for that group — an arc ending
+    exactly at the group's end point (the harness checks that the last emitted cubic ends exactly there), a
+    straight line for a zero radius, nothing when the end point is the current point — and the current
+    point ends at the LAST group's end point -/
+theorem arc_endpoints (m : St) (s : SSt) (g : Arc) (r : List Arc) (h : m.cur = s.cur) :
+    ∃ m', addSeg m 'A' (flat7 (g :: r)) = .ok (m', (interp s ((g :: r).map (.arc false))).2) ∧
+      m'.cur = (lastD g r).p := by
+  obtain ⟨a1, a2, _, _, _, _⟩ := arc_loop false (g :: r) m s h
+  refine ⟨{ (arcLoop false m ((g :: r).map arcArgs)).1 with lastKey := 'A' }, ?_, ?_⟩
+  · simp [addSeg, sevens_flat7] at a1 ⊢
+    exact a1
+  · simp only []
+    rw [a2, arcs_cur]
+
+/-- one argument group, non-degenerate: the arc op and the new current point, spelled out -/
+theorem arc_single_group (m : St) (rx ry rot l s x y : Rat)
     (hrx : rx ≠ 0) (hry : ry ≠ 0) (hne : (x, y) ≠ m.cur) :
     addSeg m 'A' [rx, ry, rot, l, s, x, y] =
       .ok ({ m with cur := (x, y), lastKey := 'A' }, [.arc rx ry rot (l != 0) (s != 0) (x, y)]) := by
@@ -120,23 +126,28 @@ theorem arc_endpoints_partial (m : St) (rx ry rot l s x y : Rat)
 example : ((3 : Rat), (4 : Rat)) ≠ ({} : St).cur := by decide +kernel
 
 /-- relative form: the end point is the current point plus the offset -/
-theorem arc_endpoints_relative_partial (m : St) (rx ry rot l s x y : Rat)
+theorem arc_single_group_relative (m : St) (rx ry rot l s x y : Rat)
     (hrx : rx ≠ 0) (hry : ry ≠ 0) (hne : padd m.cur (x, y) ≠ m.cur) :
     addSeg m 'a' [rx, ry, rot, l, s, x, y] =
       .ok ({ m with cur := padd m.cur (x, y), lastKey := 'a' },
            [.arc rx ry rot (l != 0) (s != 0) (padd m.cur (x, y))]) := by
   simp [addSeg, sevens, arcLoop, hrx, hry, hne]
 
-/-- negation witness (KF18-1): `M0 0 A10 10 0 0 1 10 10 20 5 0 0 0 30 10` — the second group is drawn with
-    the first group's parameters and ends at (10,10); SVG ends it at (30,10) -/
-theorem arc_multi_group_counterexample :
-    (match addSeg {} 'A' [10, 10, 0, 0, 1, 10, 10, 20, 5, 0, 0, 0, 30, 10] with
-      | .ok (m, ops) => m.cur == (10, 10) && ops == [.arc 10 10 0 false true (10, 10), .arc 10 10 0 false true (10, 10)]
-      | _ => false) = true ∧
-    (interp {} [.arc false ⟨10, 10, 0, false, true, (10, 10)⟩, .arc false ⟨20, 5, 0, false, false, (30, 10)⟩]).1.cur = (30, 10) := by
-  constructor
-  · decide +kernel
-  · decide +kernel
+/-- regression example (former defects KF18-1, KF18-5): `M0 0 A10 10 0 0 1 10 10 20 5 0 0 0 30 10 0 5 0 0 1 4 4`:
+    the second group is drawn with its own parameters and ends at (30,10); the zero-radius group is a line -/
+theorem arc_multi_group_example :
+    (match addSeg {} 'A' [10, 10, 0, 0, 1, 10, 10, 20, 5, 0, 0, 0, 30, 10, 0, 5, 0, 0, 1, 4, 4] with
+      | .ok (m, ops) => m.cur == (4, 4) &&
+          ops == [.arc 10 10 0 false true (10, 10), .arc 20 5 0 false false (30, 10), .lineTo (4, 4)]
+      | _ => false) = true := by
+  decide +kernel
+
+/-- regression example (former defects KF18-2, KF18-3): `1E1` and `1e+1` are single numbers -/
+theorem exponent_forms_example :
+    (match parsePath "M1E1 2L1e+1 3".toList with
+      | .ok (_, ops) => ops == [.moveTo (10, 2), .lineTo (10, 3)]
+      | _ => false) = true := by
+  decide +kernel
 
 /-! ## viewBox / preserveAspectRatio -/
 
@@ -228,5 +239,25 @@ theorem use_cycle_cut_example :
         (.group none [.use (some 1), .shape 7]) = .error .recursive ∧
     process [(1, .group (some 1) [.shape 3])] (.group none [.use (some 1), .use (some 9), .shape 7]) = .ok [3, 7] := by
   constructor <;> rfl
+
+/-! ## cyclic clip-path / mask / marker references (SVGImage.guard) -/
+
+/-- drawing with the in-progress key set terminates: guarded references recurse at most |defs|+1 deep
+    (a reference whose key is in progress is ignored) -/
+theorem guard_cycle_terminates (defs : List (Nat × Node)) (root : Node) :
+    drawGuarded defs root ≠ .error .fuel := by
+  unfold drawGuarded
+  apply processWith_ne_fuel
+  intro id
+  apply followGuard_ne_fuel
+  have := unused_le (defs.map (·.1)) []
+  simp at this; omega
+
+/-- a clip-path cycle of length 2 on a shape: each definition's content is drawn once, then the cycle is
+    ignored and the shape itself is drawn -/
+theorem guard_cycle_example :
+    drawGuarded [(0, .group none [.use (some 1), .shape 3]), (1, .group none [.use (some 0), .shape 4])]
+        (.group none [.use (some 0), .shape 77]) = .ok [4, 3, 77] := by
+  rfl
 
 end WR.Props.C18
